@@ -296,6 +296,35 @@ func checkC12(p *Program, r *Report) {
 					got := map[string]bool{}
 					guards := true
 					for _, o := range successPaths(wr.outs) {
+						if dir == "Decode" {
+							// every element / field position is injected: no successful early exit from
+							// the loop, exactly one setElem per completed iteration
+							for _, sy := range o.St.trace {
+								if sy.Kind != "loop" {
+									continue
+								}
+								for _, bo := range sy.Body {
+									if bo.IsErr == 1 {
+										continue
+									}
+									nSet := 0
+									for _, t := range bo.St.trace {
+										if t.Kind == "dyn" && strings.HasSuffix(t.Name, ".setElem") {
+											nSet++
+										}
+									}
+									ik := fmt.Sprintf("%s inject @%s", cql, ver)
+									switch {
+									case bo.Ctl == "break":
+										r.Fail("every-position-injected", ik, fnObj.Pos(), "%s can leave its loop early without an error (conditions {%s}): the remaining positions of the destination are never assigned - a reused destination keeps stale values and an untyped one lacks the keys", fnObj.Name(), describeAtoms(bo.St))
+									case bo.Ctl == "next" && nSet != 1:
+										r.Fail("every-position-injected", ik, fnObj.Pos(), "an iteration of %s completes with %d calls of setElem (conditions {%s}); each position must be injected exactly once, NULL included", fnObj.Name(), nSet, describeAtoms(bo.St))
+									default:
+										r.OKf("every-position-injected", ik, fnObj.Pos(), "each completed iteration injects its position once; no early exit without error")
+									}
+								}
+							}
+						}
 						got[c12TraceString(fnObj, o.St.trace, o.St, wr.in)] = true
 						if dir == "Encode" && strings.HasPrefix(want, "n:") {
 							if !c12CountGuarded(o.St, want) {
